@@ -211,6 +211,14 @@ def literal(node, fnode, module):
         if v is None:
             return None
         return -v if isinstance(node.op, ast.USub) else v
+    if isinstance(node, ast.Name) and fnode is not None and isinstance(fnode, (ast.FunctionDef, ast.AsyncFunctionDef)):
+        # a parameter with a literal default that the function never rebinds (a helper's `floor=1e-100`)
+        a = fnode.args
+        pos = a.posonlyargs + a.args
+        dflt = dict(zip([x.arg for x in pos[len(pos) - len(a.defaults):]], a.defaults))
+        dflt.update({x.arg: d for x, d in zip(a.kwonlyargs, a.kw_defaults) if d is not None})
+        if node.id in dflt and not any(isinstance(x, ast.Name) and x.id == node.id and isinstance(x.ctx, ast.Store) for x in ast.walk(fnode)):
+            return literal(dflt[node.id], None, module)
     if isinstance(node, ast.Name):
         for scope in (fnode, module.tree):
             if scope is None:
